@@ -111,7 +111,9 @@ type Rendezvous struct {
 	Ctl        *types.Named    // SourceControl
 	ReqField   string          // chan func() field
 	ResField   string          // chan error field
-	Queue      *ssa.Function   // runLaterIfActive
+	Queue      *ssa.Function   // runLaterIfActive: the entry point handlers use (outermost wrapper)
+	Handoff    *ssa.Function   // the function that performs the send/receive on the channels (may equal Queue)
+	Queues     map[*ssa.Function]bool // Handoff and its wrappers
 	Closures   []*ssa.Function // request closures (deduplicated, sorted by position)
 	CallSites  []ssa.CallInstruction
 	ClosureOf  map[*ssa.Function]ssa.CallInstruction // closure -> one call site
@@ -231,16 +233,44 @@ func FindRendezvous(p *Prog) (*Rendezvous, error) {
 	if rv.Queue == nil {
 		return nil, fmt.Errorf("no method of %s sends its func() parameter on %s", rv.Ctl.Obj().Name(), rv.ReqField)
 	}
-	// request closures: every value flowing into Queue's parameter
+	// The function found is the hand-off proper.  A wrapper is a method of the controller that
+	// passes its own func() parameter on to the hand-off (or to another wrapper); the outermost
+	// wrapper is the queueing entry point handlers use (it carries the active-flag test).
+	rv.Handoff = rv.Queue
+	rv.Queues = map[*ssa.Function]bool{rv.Handoff: true}
+	for changed := true; changed; {
+		changed = false
+		for _, fn := range p.LibFuncs() {
+			if rv.Queues[fn] || fn.Signature.Recv() == nil || typeName(fn.Signature.Recv().Type()) != rv.Ctl.Obj().Name() {
+				continue
+			}
+			Instrs(fn, func(in ssa.Instruction) {
+				ci, ok := in.(ssa.CallInstruction)
+				if !ok || ci.Common().StaticCallee() == nil || !rv.Queues[ci.Common().StaticCallee()] {
+					return
+				}
+				args := ci.Common().Args
+				if prm, ok := args[len(args)-1].(*ssa.Parameter); ok && isFuncVoid(prm.Type()) && !rv.Queues[fn] {
+					rv.Queues[fn] = true
+					rv.Queue = fn
+					changed = true
+				}
+			})
+		}
+	}
+	// request closures: every value flowing into a queueing function's parameter
 	seen := map[*ssa.Function]bool{}
 	for _, fn := range p.LibFuncs() {
 		Instrs(fn, func(in ssa.Instruction) {
 			ci, ok := in.(ssa.CallInstruction)
-			if !ok || ci.Common().StaticCallee() != rv.Queue {
+			if !ok || ci.Common().StaticCallee() == nil || !rv.Queues[ci.Common().StaticCallee()] {
 				return
 			}
-			rv.CallSites = append(rv.CallSites, ci)
 			args := ci.Common().Args
+			if _, isPrm := args[len(args)-1].(*ssa.Parameter); isPrm && rv.Queues[fn] {
+				return // a wrapper passing its parameter on
+			}
+			rv.CallSites = append(rv.CallSites, ci)
 			fns, ok := ResolveFuncs(args[len(args)-1])
 			if !ok || len(fns) == 0 {
 				rv.Unresolved = append(rv.Unresolved, ci)
